@@ -224,8 +224,23 @@ func VerifH_C16_lastUpdated() {
 				t := metav1.NewTime(vz.InstantNear(tag + ".lastUpdated"))
 				jc.Spec.Schedule.LastUpdated = &t
 			}
+			// the window is part of the schedule: changing it alone is a schedule change
+			switch vz.Choice(tag+".window", 3) {
+			case 1:
+				t := metav1.NewTime(time.Unix(1<<33, 0))
+				jc.Spec.Schedule.Constraints = &execution.ScheduleContraints{NotAfter: &t}
+			case 2:
+				t := metav1.NewTime(time.Unix(1<<34, 0))
+				jc.Spec.Schedule.Constraints = &execution.ScheduleContraints{NotAfter: &t}
+			}
 		}
 		return jc
+	}
+	window := func(jc *execution.JobConfig) int64 {
+		if jc.Spec.Schedule == nil || jc.Spec.Schedule.Constraints == nil || jc.Spec.Schedule.Constraints.NotAfter == nil {
+			return 0
+		}
+		return jc.Spec.Schedule.Constraints.NotAfter.Unix()
 	}
 	if vz.Bool("isCreate") {
 		jc := mk("new")
@@ -262,7 +277,11 @@ func VerifH_C16_lastUpdated() {
 	}
 	changed := old.Spec.Schedule == nil ||
 		old.Spec.Schedule.Cron.Expression != nw.Spec.Schedule.Cron.Expression ||
-		old.Spec.Schedule.Disabled != nw.Spec.Schedule.Disabled
+		old.Spec.Schedule.Disabled != nw.Spec.Schedule.Disabled ||
+		window(old) != window(nw)
+	if old.Spec.Schedule != nil && window(old) != window(nw) && old.Spec.Schedule.Cron.Expression == nw.Spec.Schedule.Cron.Expression && old.Spec.Schedule.Disabled == nw.Spec.Schedule.Disabled {
+		vz.Cover("only-the-window-changed")
+	}
 	lu := nw.Spec.Schedule.LastUpdated
 	if changed && !(before != nil && before.After(now)) {
 		vz.Assert(lu != nil && lu.Time.Equal(now), "C16/lastUpdated-stamped-on-schedule-change")
